@@ -179,11 +179,11 @@ def apalache_attempt(ntasks, timeout):
 
 # ------------------------------------------------------------------------------------------------ case generation
 
-def gen_cfg(mode, n, max_edges, fail_kinds, dangling, max_br=0, max_rerun=0, max_mark=0):
+def gen_cfg(mode, n, max_edges, fail_kinds, dangling, max_br=0, max_rerun=0, max_mark=0, max_kind=0):
     """branch-free families use spec/TMGen.tla, families with branches spec/TMGenB.tla (same growth + statically selecting branches)"""
     return ('CONSTANTS\n  Mode = "%s"\n  N = %d\n  MaxEdges = %d\n%s  FailKinds = {%s}\n  AllowDangling = %s\n'
             'SPECIFICATION Spec\nINVARIANT Emit\nCHECK_DEADLOCK FALSE\n' % (
-                mode, n, max_edges, "  MaxBr = %d\n" % max_br if max_br else "  MaxRerun = %d\n  MaxMark = %d\n" % (max_rerun, max_mark), ", ".join('"%s"' % k for k in fail_kinds),
+                mode, n, max_edges, "  MaxBr = %d\n" % max_br if max_br else "  MaxRerun = %d\n  MaxMark = %d\n  MaxKind = %d\n" % (max_rerun, max_mark, max_kind), ", ".join('"%s"' % k for k in fail_kinds),
                 "TRUE" if dangling else "FALSE"))
 
 
@@ -194,7 +194,8 @@ def gen_graphs(families):
         br = f[6] if len(f) > 6 else 0
         rr = f[7] if len(f) > 7 else 0
         mk = f[8] if len(f) > 8 else 0
-        return vlib.tlc("TMGenB" if br else "TMGen", "gen_%s.cfg" % name, files={"gen_%s.cfg" % name: gen_cfg(mode, n, me, fk, dang, br, rr, mk)},
+        kd = f[9] if len(f) > 9 else 0
+        return vlib.tlc("TMGenB" if br else "TMGen", "gen_%s.cfg" % name, files={"gen_%s.cfg" % name: gen_cfg(mode, n, me, fk, dang, br, rr, mk, kd)},
                         workers=2, timeout=900, heap="4g")
     with concurrent.futures.ThreadPoolExecutor(max_workers=JVMS) as ex:
         runs = list(ex.map(one, families))
@@ -213,7 +214,7 @@ def gen_graphs(families):
             g["probes"] = sorted(g["probes"])
             graphs.append(g)
             k += 1
-        stats.append({"family": f[0], "mode": f[1], "nodes": f[2], "max_edges": f[3], "fail_kinds": list(f[4]), "dangling": f[5], "max_branches": f[6] if len(f) > 6 else 0, "max_rerun": f[7] if len(f) > 7 else 0, "max_marks": f[8] if len(f) > 8 else 0, "graphs": k,
+        stats.append({"family": f[0], "mode": f[1], "nodes": f[2], "max_edges": f[3], "fail_kinds": list(f[4]), "dangling": f[5], "max_branches": f[6] if len(f) > 6 else 0, "max_rerun": f[7] if len(f) > 7 else 0, "max_marks": f[8] if len(f) > 8 else 0, "max_edge_kinds": f[9] if len(f) > 9 else 0, "graphs": k,
                       "orders": sum(len(g["orders"]) for g in graphs if g["fam"] == f[0]),
                       "probes": sum(len(g["probes"]) for g in graphs if g["fam"] == f[0]), "tlc_distinct": r.distinct})
         log("  family %s: %d graphs, %d completion orders, %d probes (TLC %d distinct states, %.0fs)" % (
@@ -579,7 +580,8 @@ def families_for(tier, rnd):
                 ("dag4", "dag", 4, 14, (), False, 0), ("wf4", "wf", 4, 14, (), True, 0),
                 ("dag3b", "dag", 3, 5, (), False, 1), ("wf3b", "wf", 3, 5, (), True, 1),
                 ("dag3r", "dag", 3, 9, (), False, 0, 2), ("wf3r", "wf", 3, 9, (), True, 0, 2),
-                ("dag3i", "dag", 3, 9, (), False, 0, 0, 1), ("wf3i", "wf", 3, 9, (), True, 0, 0, 1), ("wf4i", "wf", 4, 6, (), True, 0, 0, 1)]
+                ("dag3i", "dag", 3, 9, (), False, 0, 0, 1), ("wf3i", "wf", 3, 9, (), True, 0, 0, 1), ("wf4i", "wf", 4, 6, (), True, 0, 0, 1),
+                ("wf3k", "wf", 3, 9, (), True, 0, 0, 0, 1)]       # one edge control-only (AddDependency) or data-only
     return [("dag3", "dag", 3, 9, ("err", "panic"), False, 0), ("pregel3", "pregel", 3, 9, ("err", "panic"), False, 0),
             ("wf3", "wf", 3, 9, ("err", "panic"), True, 0), ("pregel4", "pregel", 4, 14, ("err",), False, 0),
             ("dag4", "dag", 4, 14, ("err",), False, 0), ("wf4", "wf", 4, 14, ("panic",), True, 0),
@@ -587,7 +589,8 @@ def families_for(tier, rnd):
             ("dag3r", "dag", 3, 9, (), False, 0, 3), ("wf3r", "wf", 3, 9, (), True, 0, 3), ("pregel3r", "pregel", 3, 9, (), False, 0, 2),
             ("dag4r", "dag", 4, 14, (), False, 0, 1), ("wf4r", "wf", 4, 14, (), True, 0, 1),
             ("dag3i", "dag", 3, 9, (), False, 0, 0, 2), ("wf3i", "wf", 3, 9, (), True, 0, 0, 3), ("dag4i", "dag", 4, 14, (), False, 0, 0, 1),
-            ("wf4i", "wf", 4, 14, (), True, 0, 0, 1)]
+            ("wf4i", "wf", 4, 14, (), True, 0, 0, 1),
+            ("wf3k", "wf", 3, 9, (), True, 0, 0, 0, 2), ("wf4k", "wf", 4, 6, (), True, 0, 0, 0, 1)]
 
 
 def c03(tier, repo=None):
@@ -616,11 +619,13 @@ def c03(tier, repo=None):
         wide = [g for g in ii if g["fam"] == "wf4i"]
         rnd.shuffle(wide)
         ii = [g for g in ii if g["fam"] != "wf4i"] + wide[:150]
-        graphs = small + big[:160] + br[:300] + rr + ii
+        kk = [g for g in graphs if g["fam"].endswith("k") and any(len(e) > 2 and e[2] != "cd" for e in g["edges"])]
+        graphs = small + big[:160] + br[:300] + rr + ii + kk
         exhaustive = False
     graphs = [g for g in graphs if g.get("branches") or not g["fam"].endswith("b")]
     graphs = [g for g in graphs if g.get("rerun") or not g["fam"].endswith("r")]        # rerun families: only the graphs with a rerun node
-    graphs = [g for g in graphs if g.get("after") or g.get("before") or not g["fam"].endswith("i")]      # branch families also grow the branch-free graphs again
+    graphs = [g for g in graphs if g.get("after") or g.get("before") or not g["fam"].endswith("i")]
+    graphs = [g for g in graphs if any(len(e) > 2 and e[2] != "cd" for e in g["edges"]) or not g["fam"].endswith("k")]      # branch families also grow the branch-free graphs again
     ocases = order_cases(graphs)
     scheds, sched_stats = gen_schedules(tier)
     hcases = hook_cases(tier, graphs, rnd) + sched_cases(tier, scheds, rnd)
